@@ -1568,6 +1568,7 @@ var loopExhaustTable = []struct{ Rel, Type, Name, Why string }{
 	{"core", "IndexedState", "doFindRules", "every candidate rule is examined"},
 	{"core", "LinearState", "doFindRules", "every stored rule is examined"},
 	{"core", "SearchResults", "Merge", "every found fact of an ancestor is merged"},
+	{"core", "Location", "doAncestors", "every parent of a location is visited (or recognised as visited already): a parent skipped by a `break` takes its whole ancestry out of inherited searches and event dispatch"},
 }
 
 func ruleLoopExhaust(prop string) ruleFn {
@@ -4915,6 +4916,260 @@ func ruleCascNoVar(w *World, r *Report) {
 		}
 		if ok {
 			r.ok("CASC-NOVAR", key, w.PosOf(searches[0]), "no cascade is searched for an id that would be a variable")
+		}
+	}
+}
+
+// FACTIDX-LAST (C02, C06): the fact index changes only when nothing can refuse the write any more.
+func ruleFactIdxLast(prop string) ruleFn {
+	return func(w *World, r *Report) {
+		r.Rule("FACTIDX-LAST", "in IndexedState.add (the in-memory half of every write) the term index of the facts (FactIndex) is changed only after the last point at which the write can still be refused: no error return is reachable from a call that adds to or removes from FactIndex.  The index is keyed by (term, id), not by fact version: removing the `new` terms of a refused overwrite takes the id out of every term it shares with the fact that is still stored, and un-indexing the old fact before the refusal points does the same — the stored fact is returned by Get and after a reload but no search finds it", 1)
+		fn := w.Method("core", "IndexedState", "add")
+		key := "fn=" + fname(fn)
+		isFI := func(in ssa.Instruction) bool {
+			c := callOf(in)
+			if c == nil || len(c.Args) == 0 {
+				return false
+			}
+			f := c.StaticCallee()
+			if f == nil || f.Signature.Recv() == nil {
+				return false
+			}
+			rn := namedOf(f.Signature.Recv().Type())
+			if rn == nil || typeKey(rn) != "core.TermIndex" {
+				return false
+			}
+			switch f.Name() {
+			case "Add", "Rem", "RemIdTerms", "RemID":
+			default:
+				return false
+			}
+			return isFieldLoad(c.Args[0], idxState, "FactIndex")
+		}
+		isErrRet := func(in ssa.Instruction) bool {
+			_, ok := in.(*ssa.Return)
+			return ok && !isSuccessReturnPS(in)
+		}
+		n := 0
+		var bad, badRet ssa.Instruction
+		allInstrs(fn, func(in ssa.Instruction) {
+			if !isFI(in) {
+				return
+			}
+			n++
+			if h, _ := reach(fn, in, isErrRet, nil, nil); h != nil && bad == nil {
+				bad, badRet = in, h
+			}
+		})
+		switch {
+		case n == 0:
+			r.exempt("FACTIDX-LAST", key, w.Pos(fn.Pos()), "add does not touch FactIndex: shape not recognised, not decided")
+		case bad != nil:
+			r.violation("FACTIDX-LAST", key, w.PosOf(bad), "the fact index is changed here, and the write can still be refused afterwards (at "+w.PosOf(badRet)+"): a refused overwrite leaves the stored fact without (some of) its terms")
+		default:
+			r.ok("FACTIDX-LAST", key, w.Pos(fn.Pos()), itoa(n)+" change(s) of the fact index, none before a refusal point")
+		}
+	}
+}
+
+// BIND-PRESENCE (C05, C03): bound means present, not non-nil.
+func ruleBindPresence(prop string) ruleFn {
+	return func(w *World, r *Report) {
+		r.Rule("BIND-PRESENCE", "Bindings.Bind substitutes a variable when the bindings *have* it: the lookup of the variable in the bindings map is a comma-ok lookup and the substitution is decided by its presence flag.  A variable bound to JSON null (`{\"lost\":null}` matched by `{\"lost\":\"?o\"}`) is bound; deciding by `value != nil` searches the condition's pattern with that variable free, ExtendBindings then overwrites the caller's null, and the rule fires for unrelated facts", 1)
+		fn := w.Method("core", "Bindings", "Bind")
+		key := "fn=" + fname(fn)
+		n := 0
+		bad := ""
+		allInstrs(fn, func(in ssa.Instruction) {
+			lk, ok := in.(*ssa.Lookup)
+			if !ok {
+				return
+			}
+			mt, isMap := lk.X.Type().Underlying().(*types.Map)
+			if !isMap {
+				return
+			}
+			if b, ok := mt.Key().Underlying().(*types.Basic); !ok || b.Kind() != types.String {
+				return
+			}
+			// the receiver's own map (bs), not the pattern
+			if !dependsOn(lk.X, func(v ssa.Value) bool { return v == ssa.Value(fn.Params[0]) }) {
+				return
+			}
+			n++
+			if !lk.CommaOk {
+				bad = w.PosOf(in)
+			}
+		})
+		switch {
+		case n == 0:
+			r.exempt("BIND-PRESENCE", key, w.Pos(fn.Pos()), "Bind does not look a variable up in its bindings: shape not recognised, not decided")
+		case bad != "":
+			r.violation("BIND-PRESENCE", key, bad, "the variable is looked up without the presence flag: a variable bound to null counts as unbound")
+		default:
+			r.ok("BIND-PRESENCE", key, w.Pos(fn.Pos()), "substitution is decided by presence")
+		}
+	}
+}
+
+// HOOK-REM-MISSING (C15): nothing stored means nothing to unschedule, not a refusal.
+func ruleHookRemMissing(w *World, r *Report) {
+	r.Rule("HOOK-REM-MISSING", "the removal hook installed by cron.AddHooks looks the fact up (State.Get) to learn whether it is a scheduled rule.  When the lookup answers NotFound — the id is not stored, or the fact has expired and the lookup itself just removed it — the hook has nothing to unschedule and accepts: a success return is control-dependent on a test of the lookup's error for *core.NotFoundError.  A hook that hands the NotFound on refuses the removal: ClearLocation fails as a whole as soon as one fact has expired unnoticed (and the rules it was to remove stay in service), and removing an id that is not there is an error through a System while it is a no-op on a bare state", 1)
+	cr := w.Named("cron", "Cronner")
+	st := w.Named("core", "State")
+	nf := w.Named("core", "NotFoundError")
+	ah := w.Func("cron", "AddHooks")
+	n := 0
+	for _, fn := range ah.AnonFuncs {
+		var gets []*ssa.Call
+		hasRem, hasSched := false, false
+		allInstrs(fn, func(in ssa.Instruction) {
+			c := callOf(in)
+			if c == nil {
+				return
+			}
+			if isIfaceMethodCall(c, cr, "Rem") {
+				hasRem = true
+			}
+			if isIfaceMethodCall(c, cr, "ScheduleEvent") {
+				hasSched = true
+			}
+			if isIfaceMethodCall(c, st, "Get") {
+				if call, ok := in.(*ssa.Call); ok {
+					gets = append(gets, call)
+				}
+			}
+		})
+		if !hasRem || hasSched || len(gets) == 0 {
+			continue // not the removal hook
+		}
+		n++
+		key := "hook=" + fname(fn)
+		isNFTest := func(v ssa.Value) bool {
+			ta, ok := v.(*ssa.TypeAssert)
+			if !ok {
+				return false
+			}
+			p, ok := ta.AssertedType.(*types.Pointer)
+			if !ok || !types.Identical(p.Elem(), nf) {
+				return false
+			}
+			return dependsOn(ta.X, func(x ssa.Value) bool {
+				e, ok := x.(*ssa.Extract)
+				if !ok || e.Index != 1 {
+					return false
+				}
+				for _, g := range gets {
+					if e.Tuple == ssa.Value(g) {
+						return true
+					}
+				}
+				return false
+			})
+		}
+		accepted := false
+		allInstrs(fn, func(in ssa.Instruction) {
+			if _, ok := in.(*ssa.Return); ok && isSuccessReturnPS(in) && controlDependsOn(fn, in, isNFTest) {
+				accepted = true
+			}
+		})
+		if accepted {
+			r.ok("HOOK-REM-MISSING", key, w.PosOf(gets[0]), "a lookup that finds nothing accepts the removal")
+		} else {
+			r.violation("HOOK-REM-MISSING", key, w.PosOf(gets[0]), "the hook returns the lookup's NotFound: an id that is not (or, expired, no longer) stored makes the removal — and a whole Clear — fail")
+		}
+	}
+	if n == 0 {
+		r.exempt("HOOK-REM-MISSING", "hook=none", w.Pos(ah.Pos()), "no closure of AddHooks both looks the fact up and calls Cronner.Rem without scheduling: shape not recognised")
+	}
+}
+
+// CLEAR-ACK (C06, C02): memory is wiped only when storage was.
+func ruleClearAck(prop string) ruleFn {
+	return func(w *World, r *Report) {
+		r.Rule("CLEAR-ACK", "in every State implementation's Clear and Delete, the in-memory fact map is replaced by an empty one (directly, or in a method of the same type such as init) only under a test of the error of Storage.Clear / Storage.Delete: if the storage refuses, the operation reports the error and the location still has what storage has.  Wiping memory regardless gives an empty live location whose facts and rules all come back with the next reload — after an operation that was reported as failed", 4)
+		a := newLocAnchors(w)
+		for nt := range a.stateImp {
+			owner := typeKey(nt)
+			ff := stateFactField[owner]
+			if ff == "" {
+				continue
+			}
+			// methods of the type that reset the fact map
+			resets := map[*ssa.Function]bool{}
+			isReset := func(in ssa.Instruction) bool {
+				st, ok := storesToField(in, owner, ff)
+				if !ok {
+					return false
+				}
+				_, isMake := st.Val.(*ssa.MakeMap)
+				return isMake
+			}
+			for _, m := range w.MethodsOf(nt) {
+				allInstrs(m, func(in ssa.Instruction) {
+					if isReset(in) {
+						resets[m] = true
+					}
+				})
+			}
+			for _, name := range []string{"Clear", "Delete"} {
+				fn := w.TryMethod(typeRel(nt), nt.Obj().Name(), name)
+				if fn == nil {
+					continue
+				}
+				key := "fn=" + fname(fn)
+				var stCalls []*ssa.Call
+				allInstrs(fn, func(in ssa.Instruction) {
+					if d, ok := isStorageMutation(w, in); ok && (strings.HasSuffix(d, "Clear") || strings.HasSuffix(d, "Delete")) {
+						if c, ok := in.(*ssa.Call); ok {
+							stCalls = append(stCalls, c)
+						}
+					}
+				})
+				if len(stCalls) == 0 {
+					r.exempt("CLEAR-ACK", key, w.Pos(fn.Pos()), "no Storage.Clear / Delete call here: shape not recognised, not decided")
+					continue
+				}
+				isErr := func(v ssa.Value) bool {
+					for _, c := range stCalls {
+						if v == ssa.Value(c) && isErrorType(c.Type()) {
+							return true
+						}
+						if e, ok := v.(*ssa.Extract); ok && e.Tuple == ssa.Value(c) && isErrorType(e.Type()) {
+							return true
+						}
+					}
+					return false
+				}
+				var wipes []ssa.Instruction
+				allInstrs(fn, func(in ssa.Instruction) {
+					if _, isDefer := in.(*ssa.Defer); isDefer {
+						return
+					}
+					if isReset(in) {
+						wipes = append(wipes, in)
+					}
+					if c := callOf(in); c != nil {
+						if f := c.StaticCallee(); f != nil && f != fn && resets[f] {
+							wipes = append(wipes, in)
+						}
+					}
+				})
+				if len(wipes) == 0 {
+					r.exempt("CLEAR-ACK", key, w.Pos(fn.Pos()), "the fact map is not reset here: shape not recognised, not decided")
+					continue
+				}
+				bad := false
+				for _, wi := range wipes {
+					if !controlDependsOn(fn, wi, isErr) {
+						bad = true
+						r.violation("CLEAR-ACK", key, w.PosOf(wi), "memory is wiped whatever the storage answered: after a refused "+name+" the live location is empty and a reloaded one is not")
+					}
+				}
+				if !bad {
+					r.ok("CLEAR-ACK", key, w.PosOf(wipes[0]), "memory is wiped only when the storage was")
+				}
+			}
 		}
 	}
 }
